@@ -7,7 +7,7 @@ history correspondence (Tie B): the same op lines run on the Lean driver and on 
 from vlib import histcheck
 
 MODULE = "TriompheModel.Props.C04"
-EXTRA = []
+EXTRA = ["TriompheModel.Proofs.HistInv"]
 TAGS = ['C04']
 WEIGHTS = {'clone': 22, 'cloneArc': 12, 'conv': 20, 'cb': 16, 'drop': 12}
 
